@@ -517,7 +517,9 @@ var dnsPool = []string{"a.example.com", "b.example.com", "example.com", "*.examp
 	"x1.test", "zz.example.com", "aa.example.com", "a.example.co", "xn--bcher-kva.example", "kiwi.example.com",
 	// 64 and 72 characters (ub-common-name is 64): nothing may cut a name
 	"a" + strings.Repeat("b", 51) + ".example.com", "a" + strings.Repeat("c", 59) + ".example.com"}
-var ipPool = []string{"10.0.0.1", "10.0.0.2", "192.168.1.7", "127.0.0.1", "::1", "fd00::1", "2001:db8::5", "1.2.3.4", "0.0.0.0", "255.255.255.255", "::", "::ffff:0:1"}
+var ipPool = []string{"10.0.0.1", "10.0.0.2", "192.168.1.7", "127.0.0.1", "::1", "fd00::1", "2001:db8::5", "1.2.3.4", "0.0.0.0", "255.255.255.255", "::", "::ffff:0:1",
+	// pairs that differ in one half of the 128 bits only
+	"fd01::1", "fd00::2", "2001:db8:0:1::5", "2001:db8::6"}
 var pidPool = []string{"device-1234", "SN:0001", "a.example.com", "10.0.0.1", "x", "*.device-1234"}
 var emailPool = []string{"root@example.com", "a@a.example.com"}
 var uriPool = []string{"https://a.example.com/x", "spiffe://example.com/w", "wireapp://CzbfFjDOQrenCbDxVmgnFw!594930e9d50bb175@wire.com"}
@@ -735,8 +737,10 @@ func genFin(r *c.Rng) *Case {
 		case 12:
 			k.Raw16 = true
 		case 13: // replace by a neighbour in sort order
-			if len(k.DNS) > 0 {
+			if len(k.DNS) > 0 && (len(k.IPs) == 0 || r.Chance(1, 2)) {
 				k.DNS[r.Intn(len(k.DNS))] = c.Pick(r, dnsPool)
+			} else if len(k.IPs) > 0 {
+				k.IPs[r.Intn(len(k.IPs))] = c.Pick(r, ipPool)
 			}
 		}
 	}
@@ -905,6 +909,10 @@ func corner() []*Case {
 		{Kind: "fin", Key: 1, IDs: []ID{i("10.0.0.1")}, CN: "::ffff:10.0.0.1"},
 		{Kind: "fin", Key: 1, IDs: []ID{i("::ffff:10.0.0.1"), i("10.0.0.1")}, IPs: []string{"10.0.0.1"}},
 		{Kind: "fin", Key: 1, IDs: []ID{i("10.0.0.1")}, IPs: []string{"10.0.0.1"}, CN: "10.0.0.2"},
+		{Kind: "fin", Key: 1, IDs: []ID{i("fd00::1")}, IPs: []string{"fd01::1"}},
+		{Kind: "fin", Key: 1, IDs: []ID{i("fd00::1")}, IPs: []string{"fd00::2"}},
+		{Kind: "fin", Key: 1, IDs: []ID{i("2001:db8::5"), i("10.0.0.1")}, IPs: []string{"10.0.0.1", "2001:db8:0:1::5"}},
+		{Kind: "fin", Key: 1, IDs: []ID{i("fd00::1")}, CN: "::1"},
 		{Kind: "fin", Key: 1, IDs: []ID{d("a.example.com"), i("10.0.0.1")}, IPs: []string{"10.0.0.1"}, DNS: []string{"a.example.com", ""}},
 		{Kind: "fin", Key: 1, IDs: []ID{i("300.1.1.1")}, IPs: []string{"10.0.0.1"}},
 		{Kind: "fin", Key: 1, IDs: []ID{i("300.1.1.1"), i("bogus")}},
